@@ -34,6 +34,8 @@ type jsession struct {
 	pass    func()
 	timeouted func() bool
 	setPassAt func(time.Time)
+	getPassAt func() time.Time
+	paBefore  time.Time
 	buffer  func() []int
 	output  <-chan []int
 	release func()
@@ -97,6 +99,7 @@ func newJSession(w *px.Writer, kind, ver string, size uint, timeout time.Duratio
 		}
 		s.process = func(_ int, xs []int) { stp.Process(xs[0]) }
 		s.pass, s.timeouted, s.setPassAt, s.buffer = stp.Pass, stp.IsTimeouted, stp.SetPassAt, stp.Buffer
+		s.getPassAt = stp.PassAt
 		s.output = stp.Discipline().Output()
 		s.release = stp.Discipline().Release
 	case kind == "unite" && ver == "v2":
@@ -107,6 +110,7 @@ func newJSession(w *px.Writer, kind, ver string, size uint, timeout time.Duratio
 		}
 		s.process = func(_ int, xs []int) { stp.Process(xs) }
 		s.pass, s.timeouted, s.setPassAt, s.buffer = stp.Pass, stp.IsTimeouted, stp.SetPassAt, stp.Buffer
+		s.getPassAt = stp.PassAt
 		s.output = stp.Discipline().Output()
 		s.release = stp.Discipline().Release
 	case kind == "join" && ver == "v1":
@@ -123,6 +127,7 @@ func newJSession(w *px.Writer, kind, ver string, size uint, timeout time.Duratio
 		}
 		s.process = func(_ int, xs []int) { stp.Process(xs[0]) }
 		s.pass, s.timeouted, s.setPassAt, s.buffer = stp.Pass, stp.IsTimeouted, stp.SetPassAt, stp.Buffer
+		s.getPassAt = stp.PassAt
 		s.output = stp.Discipline().Output()
 		s.release = func() { released <- struct{}{} }
 		s.stop = func() { cancel(); _ = stp }
@@ -130,6 +135,7 @@ func newJSession(w *px.Writer, kind, ver string, size uint, timeout time.Duratio
 	default:
 		return nil, "bad-op"
 	}
+	s.paBefore = s.getPassAt()
 	return s, s.snapshot()
 }
 
@@ -143,7 +149,12 @@ func (s *jsession) snapshot() string {
 	if s.unrel != nil && s.unrel() {
 		u = "1"
 	}
-	return fmt.Sprintf("st=%s buf=%s out=%s unrel=%s", s.st, listInt(s.buffer()), out, u)
+	pa := "0"
+	if !s.getPassAt().Equal(s.paBefore) {
+		pa = "1"
+	}
+	s.paBefore = s.getPassAt()
+	return fmt.Sprintf("st=%s buf=%s out=%s unrel=%s pa=%s", s.st, listInt(s.buffer()), out, u, pa)
 }
 
 func listInt(l []int) string {
@@ -263,6 +274,7 @@ func (s *jsession) exec(op string) string {
 		}
 		e, _ := strconv.ParseInt(t[1], 10, 64)
 		s.setPassAt(time.Now().Add(-time.Duration(e)))
+		s.paBefore = s.getPassAt()
 		if s.timeouted() {
 			s.ticked = true
 			s.call(s.pass)
@@ -310,6 +322,16 @@ func (s *jsession) exec(op string) string {
 			done := s.busy
 			s.busy = nil
 			<-done
+			// the loop's select may still pick a pending input element before it sees the
+			// stop signal: the slice the consumer holds must not be touched
+			snap := s.snapshot()
+			s.process(0, []int{987654321})
+			if !reflect.DeepEqual(s.held, s.heldCopy) {
+				s.fail("C08 v1: stopped before the release, yet the delivered slice was modified: %v -> %v", s.heldCopy, s.held)
+			}
+			s.st = "done"
+			s.snapshot()
+			return strings.Replace(snap, "st=await", "st=done", 1)
 		}
 		s.st = "done"
 	default:
